@@ -105,6 +105,8 @@ def split_cases(stdout):
             cases[cur].append(ln)
     return cases, order
 
+MAX_CRASHES_PER_CHUNK = 4
+
 def run_chunk(harness, cases):
     """run one chunk on both sides; returns {name: (impl_lines|None, model_lines|None, crashed)}"""
     text = "".join(c.text() for c in cases)
@@ -125,7 +127,15 @@ def run_chunk(harness, cases):
         crashed[bad] = "exit status %s: %s" % (rc, (se or "")[-300:].replace("\n", " "))
         idx = [i for i, c in enumerate(pending) if c.name == bad]
         pending = pending[idx[0] + 1:] if idx else []
+        if len(crashed) >= MAX_CRASHES_PER_CHUNK:
+            # enough replays of the same kind: the remaining cases of this chunk are not run (and not judged)
+            for c in pending: icases.setdefault(c.name, None); crashed.setdefault(c.name, None)
+            skipped = set(c.name for c in pending)
+            for c in cases:
+                if c.name in skipped: out[c.name] = ("skipped", None, None)
+            pending = []
     for c in cases:
+        if c.name in out: continue
         out[c.name] = (icases.get(c.name), mcases.get(c.name), crashed.get(c.name))
     return out
 
@@ -196,6 +206,9 @@ def run_cases(harness, cases, proj_opts, kinds, chunk=200):
         for ch, res in zip(chunks, ex.map(lambda ch: run_chunk(harness, ch), chunks)):
             for c in ch:
                 impl, model, crash = res[c.name]
+                if impl == "skipped":
+                    stats["skipped_after_crashes"] = stats.get("skipped_after_crashes", 0) + 1
+                    continue
                 fs, st = check_case(c, impl, model, crash, proj_opts, kinds)
                 stats["cases"] += 1
                 for k in ("steps", "exact", "invariant_only", "panics"): stats[k] += st[k]
